@@ -137,6 +137,20 @@ theorem xr_zeros_is_wrap (s : Src) (nt : Option Nat) (cn : String) (attrs : List
     have := wrap_xr_canonical s (some n) none cn attrs
     simpa [xrZeros, canonShape, timeLen] using this
 
+/-- **xr_zeros_fixed_scalar_time** — after the repair (branch fix3-C09) a single time stamp gives the one-step time axis
+`wrap_xr` gives, for every source and CRS-coordinate name; every other form of `time=` is unchanged. -/
+theorem xr_zeros_fixed_scalar_time (s : Src) (len : Option Nat) (cn : String) (attrs : List String) (t : Option TimeArg)
+    (ht : ∀ l, t ≠ some (.scalar l)) :
+    xrZerosFixed s (some (.scalar len)) (some cn) false attrs = wrap s (some 1) none cn attrs ∧
+    xrZerosFixed s t (some cn) false attrs = xrZeros s t (some cn) false attrs := by
+  constructor
+  · exact xr_zeros_is_wrap s (some 1) cn attrs
+  · unfold xrZerosFixed
+    split
+    · rename_i l
+      exact absurd rfl (ht l)
+    · rfl
+
 /-- **dataset_geobox_is_first_registered** — the `.geobox` compatibility property of a Dataset returns the geobox of
 the first data variable that has one, skipping unregistered variables; `None` when there is none. -/
 theorem dataset_geobox_is_first_registered (pre : List (String × XArr)) (nm : String) (v : XArr) (rest : List (String × XArr))
